@@ -65,7 +65,41 @@ func c06LazyCases() []c06LazyCase {
 	return out
 }
 
+// c06SplitAgree: the fields of a record are what split($0, A, FS) gives for the same text and the
+// same FS (one splitting rule, one regular-expression semantics: leftmost-longest).
+func c06SplitAgree(c *core.Ctx) {
+	fss := []string{",|, ", "a|ab", "-|--", "x|xy|xyz", ", *", "[ ,]+|;", "(ab)+|a", ":|::", "\t|\t\t", "b|ab|abc"}
+	inputs := []string{"a, b,c", "1ab2a3abab4", "p--q-r---s", "1xyz2xy3x4", "u,   v,w", "a ,;b;,c", "abab1a2ababab3", "k::v:w", "m\t\tn\to", "zabcab9b"}
+	for i, fs := range fss {
+		for j, in := range inputs {
+			if !c.Mine(9500 + i*len(inputs) + j) {
+				continue
+			}
+			cs := c06LazyCase{Lazy: "split-agree", RS: "\n", FS1: fs, FS2: fs, Input: in + "\n"}
+			c.Begin(cs)
+			c.Eval(1)
+			src := `{ printf "%d", NF; for (i = 1; i <= NF; i++) printf "[%s]", $i; printf "\n"; n = split($0, A, FS); printf "%d", n; for (i = 1; i <= n; i++) printf "[%s]", A[i]; printf "\n" }` + "\n"
+			o := c06LazyRun(cs, src)
+			c.Count("split_agree_cases", 1)
+			if o.Panic != "" {
+				c.Violation("panic", "", "interpreter panicked (split-agree family): "+run.PanicSite(o.Panic), "", o.Panic, cs)
+				continue
+			}
+			lines := strings.Split(strings.TrimSuffix(o.Stdout, "\n"), "\n")
+			if o.Err != "" || len(lines) != 2 {
+				continue // an FS the interpreter refuses: not this family's subject
+			}
+			if lines[0] != lines[1] {
+				c.Violation("record-model", "split-agree", fmt.Sprintf("FS=%q record %q: the fields are %s but split($0, A, FS) gives %s", fs, in, lines[0], lines[1]), lines[1], lines[0], cs)
+				continue
+			}
+			c.NonTrivial("splitagree|" + fs + "|" + in)
+		}
+	}
+}
+
 func c06Lazy(c *core.Ctx) {
+	c06SplitAgree(c)
 	for i, cs := range c06LazyCases() {
 		if !c.Mine(9000 + i) {
 			continue
